@@ -209,6 +209,11 @@ def run(ctx) -> None:
     ok = any(isinstance(n, ast.Assign) and isinstance(n.value, ast.ListComp) and "not in all_outputs" in src(n.value) for n in walk_local(gsel.node)) and any(isinstance(n, ast.Raise) for n in walk_local(gsel.node))
     rep.add("C16.R3", f"{gsel.qname}:validated", ok, gsel.loc(), "graph-level selection is validated against the graph's outputs" if ok else "Graph.select no longer validates names against the outputs")
 
+    # sentinels are recognised by identity, so a served cache entry must carry the module's sentinel object
+    from .c09 import check_hit_restores_sentinel
+
+    check_hit_restores_sentinel(ctx, "C16.R3")
+
     # ---- R4 ---------------------------------------------------------------------
     n_key = 0
     for f in db.all_funcs():
